@@ -110,3 +110,13 @@ CLAIMED["C05"] = dict(
         "OUTSIDE: corruption inside the LZMA bit stream (detected through the Check, which needs the payload decoder); "
         "multi-byte overwrites (CRC collisions are true counterexamples); .lz/.lzma truncation is under C16.")
 NOT_APPLICABLE.pop("C05", None)
+CLAIMED["C16"] = dict(
+   text="The real .lz, .lzma and auto-detection state machines (lzip_decode, alone_decode, auto_decode) are executed from "
+        "initial and arbitrary running states over all header/footer byte strings with symbolic cut points and flags, "
+        "against the format rules: lzip magic/version/dictionary-size code formula, member/data size and CRC comparisons, "
+        "trailing-data and concatenation rules, .lzma header plausibility test and option pass-through, detection by first "
+        "byte, '.lzma followed by anything is an error when concatenated'.",
+   note="LZMA payload decoder = contract stub, so 'return the defined content' and the known-size/end-marker rules inside "
+        "lzma_decode are OUTSIDE (a slicing defect there, D1 in DESIGN.md, was observed by hand and is not reachable by CBMC). "
+        "Stream Padding / concatenated .xz rules are under C05. xz/xzdec/lzmainfo CLI behaviour is outside.")
+NOT_APPLICABLE.pop("C16", None)
